@@ -587,7 +587,7 @@ pub fn run(r: &mut Report, ctx: &Ctx) {
                         let base = (m * q3 as u64 / 100) as i64;
                         for d in -1i64..=1 {
                             let q = (base + d).clamp(0, q3 as i64) as u32;
-                            let (v, nb) = if (idx + d as u64) % 2 == 0 { (1usize, 128usize) } else { (0usize, 48usize) };
+                            let (v, nb) = if idx.wrapping_add(d as u64) % 2 == 0 { (1usize, 128usize) } else { (0usize, 48usize) };
                             let qn = nb / 4;
                             let mut buckets = [0x0101_0101u32; 256];
                             for i in 0..nb {
@@ -633,16 +633,22 @@ pub fn run(r: &mut Report, ctx: &Ctx) {
                             let mut off = 0u64;
                             let piece = (1usize << 20) + 3;
                             let mut buf = vec![0u8; piece];
-                            let mut next_cp = 1u64 << 16;
+                            // checkpoints: 2^k and 2^k + 1000003 for k >= 16, in increasing order
+                            let mut cps: Vec<u64> = (16..=40).flat_map(|k| [1u64 << k, (1u64 << k) + 1_000_003]).filter(|&c| c <= total).collect();
+                            cps.sort();
+                            cps.dedup();
+                            let mut cpi = 0usize;
+                            let mut next_cp = cps.first().copied().unwrap_or(u64::MAX);
                             while off < total {
-                                let k = ((total - off) as usize).min(piece).min((next_cp - off) as usize);
+                                let k = ((total - off) as usize).min(piece).min(next_cp.saturating_sub(off).max(1).min(usize::MAX as u64) as usize);
                                 st.fill(off, &mut buf[..k]);
                                 g.update(&buf[..k]);
                                 r.feed_all(&buf[..k]);
                                 off += k as u64;
                                 acc.transitions += 1;
                                 if off == next_cp {
-                                    next_cp = if next_cp.is_power_of_two() { next_cp + 1_000_003 } else { (next_cp - 1_000_003) * 2 };
+                                    cpi += 1;
+                                    next_cp = cps.get(cpi).copied().unwrap_or(u64::MAX);
                                     acc.evals += 1;
                                     acc.nontrivial += 1;
                                     let p = V::gen_to_parts(&g);
